@@ -112,6 +112,183 @@ var vecSpec = map[string][]vecSpecChild{
 	},
 }
 
+// Structures whose content depends on their context are pinned under a context key (vecSpecKey): the batch item of a
+// request / of a response (Message Format §7.2) and the payloads per operation (Operations §4, request and response
+// tables). Only operations the vectors exercise are listed: every occurrence in the vectors validates the pin.
+// An element that is only conditionally allowed (Asynchronous Correlation Value: pending items) is never removed.
+func init() {
+	bin := func(name, hexval string) string { return `<` + name + ` type="ByteString" value="` + hexval + `"/>` }
+	txt := func(name, v string) string { return `<` + name + ` type="TextString" value="` + v + `"/>` }
+	tpl := func(name, attr, ty, v string) string {
+		return `<` + name + `><Attribute><AttributeName type="TextString" value="` + attr + `"/><AttributeValue type="` + ty + `" value="` + v + `"/></Attribute></` + name + `>`
+	}
+	ext := `<MessageExtension><VendorIdentification type="TextString" value="vendor-x"/><CriticalityIndicator type="Boolean" value="false"/><VendorExtension><TTLV tag="0x540001" type="Integer" value="7"/></VendorExtension></MessageExtension>`
+	cp := `<CryptographicParameters><BlockCipherMode type="Enumeration" value="CBC"/><PaddingMethod type="Enumeration" value="PKCS5"/></CryptographicParameters>`
+	more := map[string][]vecSpecChild{
+		"BatchItem@RequestMessage": {
+			{"Operation", 10, true, ""},
+			{"UniqueBatchItemID", 10, true, ""},
+			{"RequestPayload", 10, true, ""},
+			{"MessageExtension", 10, false, ext},
+		},
+		"BatchItem@ResponseMessage": {
+			{"Operation", 10, true, ""},
+			{"UniqueBatchItemID", 10, true, ""},
+			{"ResultStatus", 10, true, ""},
+			{"ResultReason", 10, true, ""},
+			{"ResultMessage", 10, false, txt("ResultMessage", "a result message")},
+			{"AsynchronousCorrelationValue", 10, false, bin("AsynchronousCorrelationValue", "A1B2C3D4")},
+			{"ResponsePayload", 10, true, ""},
+			{"MessageExtension", 10, false, ext},
+		},
+		"RequestPayload:Locate": {
+			{"MaximumItems", 10, false, `<MaximumItems type="Integer" value="5"/>`},
+			{"OffsetItems", 13, false, `<OffsetItems type="Integer" value="2"/>`},
+			{"StorageStatusMask", 10, false, `<StorageStatusMask type="Integer" value="OnLineStorage ArchivalStorage"/>`},
+			{"ObjectGroupMember", 11, false, `<ObjectGroupMember type="Enumeration" value="0x00000001"/>`},
+			{"Attribute", 10, true, ""},
+		},
+		"ResponsePayload:Locate": {
+			{"LocatedItems", 13, false, `<LocatedItems type="Integer" value="3"/>`},
+			{"UniqueIdentifier", 10, true, ""},
+		},
+		"RequestPayload:Get": {
+			{"UniqueIdentifier", 10, false, txt("UniqueIdentifier", "uid-get-1")},
+			{"KeyFormatType", 10, false, `<KeyFormatType type="Enumeration" value="Raw"/>`},
+			{"KeyWrapType", 14, false, `<KeyWrapType type="Enumeration" value="0x00000001"/>`},
+			{"KeyCompressionType", 10, false, `<KeyCompressionType type="Enumeration" value="0x00000001"/>`},
+			{"KeyWrappingSpecification", 10, true, ""},
+		},
+		"RequestPayload:ReKey": {
+			{"UniqueIdentifier", 10, false, txt("UniqueIdentifier", "uid-rekey-1")},
+			{"Offset", 10, false, `<Offset type="Interval" value="3600"/>`},
+			{"TemplateAttribute", 10, false, tpl("TemplateAttribute", "Cryptographic Length", "Integer", "256")},
+		},
+		"ResponsePayload:ReKey": {
+			{"UniqueIdentifier", 10, true, ""},
+			{"TemplateAttribute", 10, false, tpl("TemplateAttribute", "Cryptographic Length", "Integer", "256")},
+		},
+		"RequestPayload:CreateKeyPair": {
+			{"CommonTemplateAttribute", 10, false, tpl("CommonTemplateAttribute", "Cryptographic Length", "Integer", "2048")},
+			{"PrivateKeyTemplateAttribute", 10, false, tpl("PrivateKeyTemplateAttribute", "Cryptographic Usage Mask", "Integer", "Sign")},
+			{"PublicKeyTemplateAttribute", 10, false, tpl("PublicKeyTemplateAttribute", "Cryptographic Usage Mask", "Integer", "Verify")},
+		},
+		"ResponsePayload:CreateKeyPair": {
+			{"PrivateKeyUniqueIdentifier", 10, true, ""},
+			{"PublicKeyUniqueIdentifier", 10, true, ""},
+			{"PrivateKeyTemplateAttribute", 10, false, tpl("PrivateKeyTemplateAttribute", "Cryptographic Usage Mask", "Integer", "Sign")},
+			{"PublicKeyTemplateAttribute", 10, false, tpl("PublicKeyTemplateAttribute", "Cryptographic Usage Mask", "Integer", "Verify")},
+		},
+		"RequestPayload:ReKeyKeyPair": {
+			{"PrivateKeyUniqueIdentifier", 11, false, txt("PrivateKeyUniqueIdentifier", "uid-priv-1")},
+			{"Offset", 11, false, `<Offset type="Interval" value="60"/>`},
+			{"CommonTemplateAttribute", 11, false, tpl("CommonTemplateAttribute", "Cryptographic Length", "Integer", "2048")},
+			{"PrivateKeyTemplateAttribute", 11, false, tpl("PrivateKeyTemplateAttribute", "Cryptographic Usage Mask", "Integer", "Sign")},
+			{"PublicKeyTemplateAttribute", 11, false, tpl("PublicKeyTemplateAttribute", "Cryptographic Usage Mask", "Integer", "Verify")},
+		},
+		"RequestPayload:Revoke": {
+			{"UniqueIdentifier", 10, false, txt("UniqueIdentifier", "uid-revoke-1")},
+			{"RevocationReason", 10, true, ""},
+			{"CompromiseOccurrenceDate", 10, false, `<CompromiseOccurrenceDate type="DateTime" value="2012-04-27T08:12:23+00:00"/>`},
+		},
+		"RequestPayload:DeleteAttribute": {
+			{"UniqueIdentifier", 10, false, txt("UniqueIdentifier", "uid-delattr-1")},
+			{"AttributeName", 10, true, ""},
+			{"AttributeIndex", 10, false, `<AttributeIndex type="Integer" value="0"/>`},
+		},
+		"RequestPayload:Encrypt": {
+			{"UniqueIdentifier", 12, false, txt("UniqueIdentifier", "uid-enc-1")},
+			{"CryptographicParameters", 12, false, cp},
+			{"Data", 12, false, bin("Data", "00112233445566778899AABBCCDDEEFF")},
+			{"IVCounterNonce", 12, false, bin("IVCounterNonce", "000102030405060708090A0B0C0D0E0F")},
+			{"CorrelationValue", 13, false, bin("CorrelationValue", "C0FFEE01")},
+			{"InitIndicator", 13, false, `<InitIndicator type="Boolean" value="true"/>`},
+			{"FinalIndicator", 13, false, `<FinalIndicator type="Boolean" value="true"/>`},
+			{"AuthenticatedEncryptionAdditionalData", 14, false, bin("AuthenticatedEncryptionAdditionalData", "AAD0AAD1")},
+		},
+		"ResponsePayload:Encrypt": {
+			{"UniqueIdentifier", 12, true, ""},
+			{"Data", 12, false, bin("Data", "FFEEDDCCBBAA99887766554433221100")},
+			{"IVCounterNonce", 12, false, bin("IVCounterNonce", "0F0E0D0C0B0A09080706050403020100")},
+			{"CorrelationValue", 13, false, bin("CorrelationValue", "C0FFEE02")},
+			{"AuthenticatedEncryptionTag", 14, false, bin("AuthenticatedEncryptionTag", "7A67A67A")},
+		},
+		"RequestPayload:Decrypt": {
+			{"UniqueIdentifier", 12, false, txt("UniqueIdentifier", "uid-dec-1")},
+			{"CryptographicParameters", 12, false, cp},
+			{"Data", 12, false, bin("Data", "00112233445566778899AABBCCDDEEFF")},
+			{"IVCounterNonce", 12, false, bin("IVCounterNonce", "000102030405060708090A0B0C0D0E0F")},
+			{"CorrelationValue", 13, false, bin("CorrelationValue", "C0FFEE03")},
+			{"InitIndicator", 13, false, `<InitIndicator type="Boolean" value="true"/>`},
+			{"FinalIndicator", 13, false, `<FinalIndicator type="Boolean" value="true"/>`},
+			{"AuthenticatedEncryptionAdditionalData", 14, false, bin("AuthenticatedEncryptionAdditionalData", "AAD0AAD1")},
+			{"AuthenticatedEncryptionTag", 14, false, bin("AuthenticatedEncryptionTag", "7A67A67A")},
+		},
+		"ResponsePayload:Decrypt": {
+			{"UniqueIdentifier", 12, true, ""},
+			{"Data", 12, false, bin("Data", "00112233")},
+			{"CorrelationValue", 13, false, bin("CorrelationValue", "C0FFEE04")},
+		},
+		"RequestPayload:Sign": {
+			{"UniqueIdentifier", 12, false, txt("UniqueIdentifier", "uid-sign-1")},
+			{"CryptographicParameters", 12, false, cp},
+			{"Data", 12, false, bin("Data", "0011223344")},
+			{"DigestedData", 14, false, bin("DigestedData", "D16E57ED")},
+			{"CorrelationValue", 13, false, bin("CorrelationValue", "C0FFEE05")},
+			{"InitIndicator", 13, false, `<InitIndicator type="Boolean" value="true"/>`},
+			{"FinalIndicator", 13, false, `<FinalIndicator type="Boolean" value="true"/>`},
+		},
+		"ResponsePayload:Sign": {
+			{"UniqueIdentifier", 12, true, ""},
+			{"SignatureData", 12, false, bin("SignatureData", "5167A7E0")},
+			{"CorrelationValue", 13, false, bin("CorrelationValue", "C0FFEE06")},
+		},
+		"RequestPayload:SignatureVerify": {
+			{"UniqueIdentifier", 12, false, txt("UniqueIdentifier", "uid-verify-1")},
+			{"CryptographicParameters", 12, false, cp},
+			{"Data", 12, false, bin("Data", "0011223344")},
+			{"DigestedData", 14, false, bin("DigestedData", "D16E57ED")},
+			{"SignatureData", 12, false, bin("SignatureData", "5167A7E0")},
+			{"CorrelationValue", 13, false, bin("CorrelationValue", "C0FFEE07")},
+			{"InitIndicator", 13, false, `<InitIndicator type="Boolean" value="true"/>`},
+			{"FinalIndicator", 13, false, `<FinalIndicator type="Boolean" value="true"/>`},
+		},
+		"ResponsePayload:SignatureVerify": {
+			{"UniqueIdentifier", 12, true, ""},
+			{"ValidityIndicator", 12, true, ""},
+			{"Data", 12, false, bin("Data", "00112233")},
+			{"CorrelationValue", 13, false, bin("CorrelationValue", "C0FFEE08")},
+		},
+	}
+	for k, v := range more {
+		vecSpec[k] = v
+	}
+}
+
+// elements of a pinned structure that the specification allows under a condition on their siblings only: added (the
+// library's decoder does not judge the condition), never removed.
+var vecSpecAddOnly = map[string]bool{
+	"BatchItem@ResponseMessage/AsynchronousCorrelationValue": true,
+}
+
+// vecSpecKey: the key of vecSpec for a node: its element name, or for context-dependent structures the name and the
+// context (the message kind for a batch item, the operation named by the enclosing batch item for a payload).
+func vecSpecKey(root, n, parent *xnode) string {
+	switch n.Name {
+	case "BatchItem":
+		return n.Name + "@" + root.Name
+	case "RequestPayload", "ResponsePayload":
+		if parent != nil {
+			for _, c := range parent.Children {
+				if c.Name == "Operation" {
+					return n.Name + ":" + c.Attrs["value"]
+				}
+			}
+		}
+	}
+	return n.Name
+}
+
 func vecSpecIndex(parent, child string) int {
 	for i, c := range vecSpec[parent] {
 		if c.name == child {
@@ -341,11 +518,11 @@ func vecSample(xmlText string) *xnode {
 // ---- variations directed by the specification ------------------------------------------------------------------------
 
 // specCheck: an occurrence of a pinned structure in a vector must follow the pinned order (else the pin is wrong).
-func vecSpecCheck(n *xnode) string {
-	spec := vecSpec[n.Name]
+func vecSpecCheck(key string, n *xnode) string {
+	spec := vecSpec[key]
 	last := -1
 	for _, c := range n.Children {
-		i := vecSpecIndex(n.Name, c.Name)
+		i := vecSpecIndex(key, c.Name)
 		if i < 0 {
 			return fmt.Sprintf("%s has a child %s that the pinned specification order does not list", n.Name, c.Name)
 		}
@@ -359,9 +536,9 @@ func vecSpecCheck(n *xnode) string {
 
 // specVariants: the message with the optional children of the structure at `path` toggled (present → removed, absent and
 // allowed at the message's version → added at the specification position): singles, pairs, everything.
-func vecSpecVariants(msg *xnode, path []int, ver int, maxPairs int, r *rng.R) []*xnode {
+func vecSpecVariants(key string, msg *xnode, path []int, ver int, maxPairs int, r *rng.R) []*xnode {
 	n := vecAt(msg, path)
-	spec := vecSpec[n.Name]
+	spec := vecSpec[key]
 	present := map[string]bool{}
 	for _, c := range n.Children {
 		present[c.Name] = true
@@ -369,6 +546,9 @@ func vecSpecVariants(msg *xnode, path []int, ver int, maxPairs int, r *rng.R) []
 	var toggles []int
 	for i, sc := range spec {
 		if sc.keep || (!present[sc.name] && (sc.since > ver || sc.xml == "")) {
+			continue
+		}
+		if present[sc.name] && vecSpecAddOnly[key+"/"+sc.name] {
 			continue
 		}
 		toggles = append(toggles, i)
